@@ -21,6 +21,8 @@ func c20Alphabet(c Cfg) []Op {
 		{K: "put", Key: "b", VC: "L", Dev: true},
 		{K: "put", Key: "b", VC: "M", Dev: true},
 		{K: "put", Key: "a", VC: "Z", Dev: true},
+		{K: "restartslash", Arg: 1, Dev: true}, // the source directory spelled with a trailing separator
+		{K: "restartslash", Arg: 3, Dev: true}, // ... with a "/./" in the middle
 		{K: "merge", Dev: true},
 		{K: "restart", Dev: true},
 		{K: "batch", Sub: []Op{{K: "put", Key: "a", VC: "S"}, {K: "put", Key: "b", VC: "S"}}, Dev: true},
@@ -38,7 +40,7 @@ func doBackup(w *World, n int, res *TaskResult) *Violation {
 	}
 	err := w.guard(func() error { return w.DB.Backup(dst) })
 	if err != nil {
-		return viol("C20", "backup-error", "backup-error:"+errClass(err), "Backup returned "+panicDetail(err))
+		return viol("C20", "backup-error", "backup-error:"+firstWord(errClass(err)), "Backup returned "+panicDetail(err))
 	}
 	if _, err := os.Stat(filepath.Join(dst, ".lock")); err == nil {
 		return viol("C20", "lock-copied", "lock-copied", "the backup directory contains the source's .lock file")
